@@ -227,19 +227,50 @@ def run(prog: Program, rep: Report, tier: str):
              "the counter of its own unit (epochs=epoch, updates=update with == or >=; samples with >=)")
     rets = [n for n, nd in cfg.nodes.items() if nd.kind == "stmt" and isinstance(nd.ast, ast.Return) and in_main_body(n)]
     rep.require(rets, "anchor-missing: return inside the main loop of _training_loop")
-    B = None
+    # one stopping test with a disjunction, or one test per budget (guard clauses, nested ifs): the stop condition of a
+    # return is the conjunction of its guards inside the update block; guards that only say 'an earlier return was not
+    # taken' are not part of it
+    nearest = {r: R.nearest_test(r) for r in rets}
+    rep.require(any(v is not None for v in nearest.values()), "anchor-missing: budget test")
+    outer = set(cfg.control_predicates(upd_entry)) | {(T2, T2lab)}
+    exits_other_way = {(t_, not lab) for t_, lab in nearest.values() if isinstance(lab, bool)} if all(
+        v is not None for v in nearest.values()) else set()
+
+    def _dnf(t) -> List[List[Term]]:
+        if t[0] == "or":
+            out = []
+            for x in t[1]:
+                out += _dnf(x)
+            return out
+        if t[0] == "and":
+            acc = [[]]
+            for x in t[1]:
+                acc = [a + b for a in acc for b in _dnf(x)]
+            return acc
+        return [[t]]
+
+    stops = []  # (test node, conjunct list)
+    Bns = []
     for r in rets:
-        nt = R.nearest_test(r)
-        if nt is not None:
-            B = nt
-    rep.require(B is not None, "anchor-missing: budget test")
-    Bn, Blab = B
-    bt = R.term_at(Bn) if Blab else negate(R.term_at(Bn))
-    disj = list(bt[1]) if bt[0] == "or" else [bt]
+        if nearest[r] is None:
+            continue
+        gs = [(t_, lab) for t_, lab in cfg.control_predicates(r)
+              if cfg.nodes[t_].kind == "test" and (t_, lab) not in outer and (t_, lab) not in exits_other_way
+              and in_main_body(t_)]
+        if not gs:
+            continue
+        Bns.append(gs[-1][0])
+        acc = [[]]
+        for t_, lab in gs:
+            bt = R.term_at(t_) if lab else negate(R.term_at(t_))
+            acc = [a + b for a in acc for b in _dnf(bt)]
+        stops += [(gs[-1][0], c) for c in acc]
+    rep.require(Bns, "anchor-missing: budget test")
+    Bn = min(Bns, key=lambda n: R.line(n))
     seen_units = {}
     unit_counter = {"epochs": E, "updates": U, "samples": S}
-    for d in disj:
-        conj = list(d[1]) if d[0] == "and" else [d]
+    for tn, conj in stops:
+        d = ("and", tuple(conj)) if len(conj) != 1 else conj[0]
         unit = None
         cmp_ = None
         for c in conj:
@@ -251,7 +282,7 @@ def run(prog: Program, rep: Report, tier: str):
                 cmp_ = c
         if unit is None or cmp_ is None or unit not in unit_counter:
             rep.unk("G8.budget", fi, f"disjunct:{show(d)[:60]}", "budget disjunct of unrecognised shape",
-                    line=R.line(Bn), clause="C04.4")
+                    line=R.line(tn), clause="C04.4")
             continue
         p = term_to_poly(cmp_[1])
         cvars = [a for a in p.atoms() if a[0] == "var"]
@@ -285,17 +316,20 @@ def run(prog: Program, rep: Report, tier: str):
                    f"self.{unit} is compared with the {unit[:-1]} counter '{want}' ({kind})",
                    (f"self.{unit} is compared with {', '.join(show(a) for a in cvars) or '?'} instead of the "
                     f"{unit[:-1]} counter '{want}'" if not ok_pair else detail),
-                   line=R.line(Bn), clause="C04.4")
+                   line=R.line(tn), clause="C04.4")
     for unit in unit_counter:
         if unit not in seen_units:
             rep.bad("G8.budget", fi, f"unit:{unit}", f"the stopping test has no disjunct for the {unit} budget: such a "
                     f"stream never ends", line=R.line(Bn), clause="C04.4")
-    in_block = (T2, T2lab) in cfg.control_predicates(Bn)
     incE = [n for n, c in R.increments(E)]
-    after_inc = all(R.within_iteration(N, upd_entry, Bn, {n}) for n in incU) and not any(
-        R.same_iteration_path(N, Bn, n) for n in incU + incE)
-    after_pass = R.cfg_iter is not None and R.within_iteration(N, upd_entry, Bn, {R.cfg_iter})
-    every = R.within_iteration(N, upd_entry, N, {Bn})
+    in_block = after_inc = after_pass = every = True
+    for b_ in sorted(set(Bns)):
+        in_block = in_block and (T2, T2lab) in cfg.control_predicates(b_)
+        after_inc = after_inc and all(R.within_iteration(N, upd_entry, b_, {n}) for n in incU) and not any(
+            R.same_iteration_path(N, b_, n) for n in incU + incE)
+        after_pass = after_pass and R.cfg_iter is not None and R.within_iteration(N, upd_entry, b_, {R.cfg_iter})
+        # a path from the update to the next main index passes this test unless an earlier budget test already ended the run
+        every = every and R.within_iteration(N, upd_entry, N, {b_})
     rep.decide(in_block and after_inc and after_pass and every, "G8.budget", fi, "position",
                "budget test: inside the update block, after the increments, after the interleaved passes, before the "
                "next main index",
@@ -329,7 +363,7 @@ def run(prog: Program, rep: Report, tier: str):
             c = (R.term_at(nt[0]) if nt[1] else negate(R.term_at(nt[0]))) if nt else None
             pr = split_eq(c[1]) if c and c[0] == "eq" else None
             okc = pr is not None and {_vn(pr[0]), _vn(pr[1])} == {SE, _vn(SPE)}
-            okp = R.within_iteration(N, body, bn, {Bn})
+            okp = all(R.within_iteration(N, body, bn, {b_}) for b_ in set(Bns))
             rep.decide(okc and okp, "G8.epoch-end", fi, "break", "break only at the epoch end, after the budget test",
                        ("break under " + (show(c) if c else "no condition") if not okc else "") +
                        ("; break can be reached without passing the budget test" if not okp else ""),
@@ -473,8 +507,16 @@ def batch_sampler(prog: Program, rep: Report):
                "after an emission the same list object is reused or mutated in place (the consumer's batch changes "
                "under it)" if mut or not fresh_in else "a path from the emission to the next index keeps the old list",
                line=fa.line(y), clause="C04.6")
+    def _says_empty(t, n) -> bool:
+        x = fa.sym.term(ast.Name(lst, ast.Load()), n)
+        ln = ("call", ("global", "len"), (x,), ())
+        p = term_to_poly(ln)
+        return t in (("eq", ln), ("not", x), ("not", ln), ("le", ln)) or (
+            t[0] == "lt" and term_to_poly(t[1]) == p - Poly.const(1)) or (t[0] == "eqv" and x in t[1] and any(
+                y in (("list", ()), ("tuple", ())) for y in t[1]))
+
     asserts = [n for n, nd in cfg.nodes.items() if nd.kind == "test" and isinstance(nd.owner, ast.Assert)
-               and fa.sym.term(nd.ast, n) == ("eq", ("call", ("global", "len"), (fa.sym.term(ast.Name(lst, ast.Load()), n),), ()))]
+               and _says_empty(fa.sym.term(nd.ast, n), n)]
     after = cfg.out_edge(N, False)
     ok = bool(asserts) and after is not None and (after in asserts or not cfg.reachable(after, cfg.exit, avoid=set(asserts)))
     rep.decide(ok, "G8.batch-sampler", fi, "assert-empty", "end of stream asserts an empty remainder",
